@@ -62,7 +62,11 @@ func c02(c *Ctx) {
 			c.Fail(line, fl.String())
 			if f, ok := tc.tree(); ok {
 				if id := c02Excluded(tc, f, shapeOf(f)); id == "" {
-					c.Extra["corpus_witness_outside_exclusions"] = line
+					if prev, ok := c.Extra["corpus_witness_outside_exclusions"].(string); ok {
+						c.Extra["corpus_witness_outside_exclusions"] = prev + " | " + line
+					} else {
+						c.Extra["corpus_witness_outside_exclusions"] = line
+					}
 				} else {
 					st.excluded["corpus:"+id]++
 				}
